@@ -1,5 +1,5 @@
 # C06 - namespace binding
-CLAIMS = {'nsdecl_sg': 'as nsdecl for SGXMLScanner::updateNSMap (the schema scanner has its own copy)', 'nsdecl': 'IGXMLScanner::updateNSMap + normalizeAttRawValue for every declaration name in {xmlns, xmlns:p, xmlns:xml, xmlns:xmlns} x value in {empty, 1 symbolic char, XML name, xmlns name, literal TAB} x XML 1.0/1.1: bound exactly once to the normalised value (un-declaration included), exactly the namespace-constraint errors of the Recommendation', 'elemstack': 'ElemStack::reset/addLevel/addPrefix/addGlobalPrefix/popTop/mapPrefixToURI/expandMap under every script of <= K operations: lookup = nearest enclosing declaration'}
+CLAIMS = {'nsdecl_dg': 'as nsdecl for DGXMLScanner::updateNSMap(prefix, local part, normalised value)', 'nsdecl_sg': 'as nsdecl for SGXMLScanner::updateNSMap (the schema scanner has its own copy)', 'nsdecl': 'IGXMLScanner::updateNSMap + normalizeAttRawValue for every declaration name in {xmlns, xmlns:p, xmlns:xml, xmlns:xmlns} x value in {empty, 1 symbolic char, XML name, xmlns name, literal TAB} x XML 1.0/1.1: bound exactly once to the normalised value (un-declaration included), exactly the namespace-constraint errors of the Recommendation', 'elemstack': 'ElemStack::reset/addLevel/addPrefix/addGlobalPrefix/popTop/mapPrefixToURI/expandMap under every script of <= K operations: lookup = nearest enclosing declaration'}
 ASSUMPTIONS = ['prefixes drawn from "", a, b, c, xml, xmlns; XMLStringPool::addOrFind/getId cut to an injective id function with the pool contract (getId of a never-added string = 0)', 'MemoryManager stub']
 HARNESSES = [
  dict(name='elemstack', entry='harness_elemstack', srcs=['C06/elemstack.cpp', 'C06/poolstub.cpp'],
@@ -15,8 +15,12 @@ HARNESSES = [
       tus=['internal/SGXMLScanner.cpp', 'framework/XMLBuffer.cpp', 'util/XMLChar.cpp', 'util/XMLString.cpp', 'util/XMLUni.cpp'],
       const_tables=['_ZN11xercesc_4_010XMLChar1_019fgCharCharsTable1_0E', '_ZN11xercesc_4_010XMLChar1_119fgCharCharsTable1_1E'],
       defs={'all': {'SCANNER': 'SGXMLScanner'}}, unwind=50, unwind_cap=60, timeout={'quick': 900, 'thorough': 1700}, mem_gb=16),
+  dict(name='nsdecl_dg', entry='harness_nsdecl', srcs=['C06/nsdecl.cpp', 'C06/nsstubs.cpp'],
+      tus=['internal/DGXMLScanner.cpp', 'framework/XMLBuffer.cpp', 'util/XMLChar.cpp', 'util/XMLString.cpp', 'util/XMLUni.cpp'],
+      const_tables=['_ZN11xercesc_4_010XMLChar1_019fgCharCharsTable1_0E', '_ZN11xercesc_4_010XMLChar1_119fgCharCharsTable1_1E'],
+      defs={'all': {'SCANNER': 'DGXMLScanner', 'SCANNER_DG': 1}}, unwind=50, unwind_cap=60, timeout={'quick': 900, 'thorough': 1700}, mem_gb=16),
 ]
 LEVEL_TEXT = ('Bounded model checking of the real prefix->URI scoping structure: for ALL operation scripts of length <= K over addLevel/addPrefix/addGlobalPrefix/popTop with symbolic prefixes and URI ids, '
               'the real mapPrefixToURI returns exactly the binding of the nearest enclosing declaration (shadowing, re-declaration, un-declaration of the default namespace, xml/xmlns fixed, unknown prefixes).')
-LEVEL_NOTE = ('Bounds: K<=4 operations (quick) / 6 (thorough), depth<=K. Not covered: the SG/DG/WF scanners\' copies of updateNSMap, scanners\' two-pass start-tag processing, SAX2 prefix-mapping events, DOM lookup* algorithms, attribute expanded-name collisions '
+LEVEL_NOTE = ('Bounds: K<=4 operations (quick) / 6 (thorough), depth<=K. Not covered: the WF scanner\'s namespace handling, scanners\' two-pass start-tag processing, SAX2 prefix-mapping events, DOM lookup* algorithms, attribute expanded-name collisions '
               '(scanner dispatch / DOM tree recursion outside bounded symbolic execution). Cuts: prefix string pool lookups -> injective id function; XMLException message loading.')
